@@ -599,6 +599,7 @@ func run(r *vk.Run) {
 		"two equivalences are used: same default_int32 (an equivalence relation) and |difference of default_int32| <= 1 (a tolerance, not transitive); both are applied to what the subscriber holds for the id (the value last sent to it, read-masked; before anything was sent, the previous stored value), which is what 'suppressed consecutive equivalent values' means for a non-transitive comparer")
 	forcedJoin(r)
 	forcedJoinDuringSend(r)
+	leaverMidSeed(r)
 	idx := 0
 	for _, isVal := range []bool{false, true} {
 		ops := colOps()
